@@ -506,3 +506,49 @@ func StreamMatrix() *m.Design {
 		Services: []*m.Service{{Name: "streams", HasHTTP: true, Methods: []*m.Method{watch, collect, chat, sums, relay, items, ticks, plain}}},
 		Features: []string{"fixed-design:stream-matrix", "streaming-result", "streaming-payload", "streaming-bidirectional", "streamed-result-type-with-views"}}
 }
+
+// GRPCStreamMatrix is a fixed gRPC design with the four streaming kinds
+// (unary, server streaming, client streaming, bidirectional): messages are
+// user types with nested messages, arrays, maps and validations, a primitive
+// streamed in both directions, and request metadata next to the streams.
+func GRPCStreamMatrix() *m.Design {
+	obj := func(fs ...*m.Field) *m.Attr { return &m.Attr{Type: &m.Type{Kind: m.Object, Fields: fs}} }
+	tag := 0
+	fld := func(n string, a *m.Attr, req bool) *m.Field {
+		tag++
+		return &m.Field{Name: n, Attr: a, Required: req, Tag: tag}
+	}
+	reset := func(start int) { tag = start }
+	arr := func(e *m.Attr) *m.Attr { return &m.Attr{Type: &m.Type{Kind: m.Array, Elem: e}} }
+	mp := func(k, v *m.Attr) *m.Attr { return &m.Attr{Type: &m.Type{Kind: m.Map, Key: k, Val: v}} }
+	prim := m.Prim
+	level := prim(m.Int32)
+	level.V = &m.Validation{Min: fp(0), Max: fp(9)}
+	name := prim(m.String)
+	name.V = &m.Validation{MinLen: ip(1), MaxLen: ip(12)}
+	reset(0)
+	origin := &m.UserType{Name: "Origin", Var: "gorigin", Attr: obj(fld("host", prim(m.String), true), fld("port", prim(m.Int32), false))}
+	reset(2)
+	event := &m.UserType{Name: "Event", Var: "gevent", Attr: obj(fld("seq", prim(m.Int64), true), fld("name", name, true), fld("level", level, false),
+		fld("tags", arr(prim(m.String)), false), fld("counts", mp(prim(m.String), prim(m.Int64)), false), fld("origin", m.UserRef("Origin"), false), fld("raw", prim(m.Bytes), false))}
+	reset(0)
+	sample := &m.UserType{Name: "Sample", Var: "gsample", Attr: obj(fld("at", prim(m.Int64), true), fld("value", prim(m.Float64), true), fld("label", prim(m.String), false), fld("flags", arr(prim(m.Boolean)), false))}
+	reset(0)
+	watch := &m.Method{Name: "watch", Streaming: "result", GRPC: &m.GRPCEndpoint{Metadata: []m.Mapping{{Attr: "token"}}},
+		Payload: obj(fld("id", prim(m.String), true), fld("since", prim(m.Int64), false), fld("token", prim(m.String), false)), Result: m.UserRef("Event")}
+	reset(0)
+	collect := &m.Method{Name: "collect", Streaming: "payload", GRPC: &m.GRPCEndpoint{}, StreamingPayload: m.UserRef("Sample")}
+	collect.Result = obj(fld("count", prim(m.Int64), true), fld("last", prim(m.String), false))
+	relay := &m.Method{Name: "relay", Streaming: "bidirectional", GRPC: &m.GRPCEndpoint{}, StreamingPayload: m.UserRef("Event"), Result: m.UserRef("Sample")}
+	echo := &m.Method{Name: "echo", Streaming: "bidirectional", GRPC: &m.GRPCEndpoint{}, StreamingPayload: prim(m.String), Result: prim(m.String)}
+	ticks := &m.Method{Name: "ticks", Streaming: "result", GRPC: &m.GRPCEndpoint{}, Result: prim(m.Int64)}
+	reset(0)
+	unary := &m.Method{Name: "unary", GRPC: &m.GRPCEndpoint{}, Payload: obj(fld("e", m.UserRef("Event"), true))}
+	reset(0)
+	unary.Result = obj(fld("s", m.UserRef("Sample"), false))
+	health := &m.Service{Name: "health", HasHTTP: true, Methods: []*m.Method{{Name: "ping", HTTP: &m.HTTPEndpoint{Routes: []m.Route{{Verb: "GET", Path: "/ping"}}}}}}
+	return &m.Design{API: m.API{Name: "grpcstreams", Title: "gRPC stream matrix", Server: true},
+		Types:    []*m.UserType{origin, event, sample},
+		Services: []*m.Service{{Name: "grpcstreams", HasGRPC: true, Methods: []*m.Method{watch, collect, relay, echo, ticks, unary}}, health},
+		Features: []string{"fixed-design:grpc-stream-matrix", "grpc-server-streaming", "grpc-client-streaming", "grpc-bidirectional-streaming", "request-metadata"}}
+}
